@@ -105,6 +105,23 @@ func TestWorker(t *testing.T) {
 			res := Execute(t, spec)
 			_ = enc.Encode(map[string]any{"kind": "hash", "idx": idx, "hash": res.Hash, "steps": res.Steps, "outcome": res.Outcome, "err": res.HarnessErr})
 		}
+	case "flaky":
+		spec := *job.Spec
+		spec.KeepTrace = true
+		first := Execute(t, spec)
+		spec.Replay = first.Tape
+		base := Execute(t, spec)
+		n := 0
+		for i := 0; i < job.MaxRuns; i++ {
+			r := Execute(t, spec)
+			if r.Hash != base.Hash {
+				n++
+				if n <= 2 {
+					_ = enc.Encode(map[string]any{"kind": "flaky", "i": i, "diff": firstDiffCtx(base.Trace, r.Trace, 25)})
+				}
+			}
+		}
+		_ = enc.Encode(map[string]any{"kind": "flaky-summary", "divergent": n, "of": job.MaxRuns})
 	case "replay":
 		spec := *job.Spec
 		spec.KeepTrace = true
@@ -220,7 +237,14 @@ func workerSearch(t *testing.T, job *Job, enc *json.Encoder) {
 					a.KeepTrace = true
 					r1 := Execute(t, a)
 					r2 := Execute(t, a)
-					_ = enc.Encode(map[string]any{"kind": "nondeterminism", "spec": spec, "diff": firstDiff(r1.Trace, r2.Trace), "hash1": res.Hash, "hash2": res2.Hash})
+					d := firstDiff(r1.Trace, r2.Trace)
+					if r1.Hash == r2.Hash {
+						b := spec
+						b.KeepTrace = true
+						r0 := Execute(t, b)
+						d = "search run vs its replay: " + firstDiff(r0.Trace, r1.Trace)
+					}
+					_ = enc.Encode(map[string]any{"kind": "nondeterminism", "spec": spec, "diff": d, "hash1": res.Hash, "hash2": res2.Hash})
 				}
 			}
 		}
@@ -240,6 +264,34 @@ func seedsPerVariant(job *Job) int {
 		return 1500
 	}
 	return 40
+}
+
+func firstDiffCtx(a, b []string, ctx int) []string {
+	for i := 0; i < len(a) && i < len(b); i++ {
+		if a[i] != b[i] {
+			lo := i - ctx
+			if lo < 0 {
+				lo = 0
+			}
+			out := append([]string{}, a[lo:i]...)
+			hi := i + 6
+			if hi > len(a) {
+				hi = len(a)
+			}
+			for _, l := range a[i:hi] {
+				out = append(out, "A> "+l)
+			}
+			hi = i + 6
+			if hi > len(b) {
+				hi = len(b)
+			}
+			for _, l := range b[i:hi] {
+				out = append(out, "B> "+l)
+			}
+			return out
+		}
+	}
+	return []string{"no diff in common prefix"}
 }
 
 func firstDiff(a, b []string) string {
